@@ -1,3 +1,4 @@
+import Ecal.Gen.C20
 /-!
 # Model of the pack tool's file layout and of the marker scan (cli/tool/pack.go)
 
@@ -55,10 +56,10 @@ def findFirst (M : List Nat) : List Nat → Option Nat
 /-- the file written by `Pack` -/
 def layout (M bin zip : List Nat) : List Nat := bin ++ M ++ zip
 
-/-- `unicode.IsSpace(rune(b)) || unicode.IsControl(rune(b))` for a byte `b`
-    (Latin-1 range: U+0000–U+0020, U+007F–U+009F incl. U+0085, U+00A0); compared
-    with the table computed by the Go functions in `Props.C20.isSkip_table`. -/
-def isSkip (b : Nat) : Bool := b ≤ 32 || (127 ≤ b && b ≤ 160)
+/-- is byte `b` skipped after the marker? The 256-entry table is regenerated on every run by
+    evaluating the predicate of the code's skip loop with Go's unicode functions
+    (`Ecal.Gen.C20.skipTable`; reference: `unicode.IsSpace || unicode.IsControl`). -/
+def isSkip (b : Nat) : Bool := Ecal.Gen.C20.skipTable.getD b false
 
 /-- result of the marker scan -/
 inductive Res where
